@@ -370,6 +370,14 @@ int main(int argc, char** argv) {
       else if (!strcmp(what, "concat_null")) { HC_TRY(concat(c, NULL)); }
       else if (!strcmp(what, "concat_int")) { HC_TRY(concat(c, $I(3))); }
       else if (!strcmp(what, "assign_int")) { HC_TRY(assign(c, $I(3))); }
+      else if (!strncmp(what, "refuse_", 7)) {         /* an element of the right type that the element type's Assign refuses */
+        var bad = new_raw(Probe, $I(PROBE_REFUSED));
+        if (!strcmp(what, "refuse_push")) HC_TRY(push(c, bad));
+        else if (!strcmp(what, "refuse_pushat")) { idx = L / 2; HC_TRY(push_at(c, bad, $I(idx))); }
+        else if (!strcmp(what, "refuse_set")) { idx = L / 2; HC_TRY(set(c, $I(idx), bad)); }
+        else { fprintf(stderr, "unknown bad op %s\n", what); return 9; }
+        del_raw(bad);
+      }
       else if (!strcmp(what, "resize_grow")) { idx = L + 3; HC_TRY(resize(c, (size_t)idx)); }   /* Tuple only */
       else if (!strcmp(what, "new_alien")) {
         /* a constructor that is handed an element it cannot take (between two good ones): it raises; what it leaves behind
